@@ -648,4 +648,7 @@ def handwritten():
     P.append((("loop", None, (("match", lit("a")), n1, ("if", ((("bin", "==", ("bin", "%", ("var", "n"), ("num", 3)), ("num", 0)), (("hook", "h"),)), (("bin", "==", ("var", "n"), ("num", 5)), (("break", None),))), None))), ("match", lit("b"))))
     P.append((("setstr", "s", b"xy"), ("match", lit("a")), ("delete", "s"), ("append", "s", ("re", q("b", "+"))), ("hook", "h"), ("match", lit("c"))))
     P.append((("try", (("loop", None, (("appendc", "s", ("num", 65)), ("match", lit("a")))),), ("outofspace",), (("hook", "h"), ("wait", lit("z")))), ("finish", "F")))
+    P.append((("case", False, ((None, (lit("S"),), (("set", "n", ("num", 1)),)), (None, (lit("M"),), (("set", "n", ("num", 0)),)))),
+              ("loop", "recs", (("loop", "chars", (("match", AB), ("if", ((("bin", "==", ("var", "n"), ("num", 1)), (("break", "chars"),)),), None))), ("set", "m", ("bin", "+", ("var", "m"), ("num", 1)))))))
+    P.append((("loop", "recs", (("loop", "chars", (("append", "s", AB), ("if", ((("bin", ">", ("len", "s"), ("num", 1)), (("break", "chars"),)),), None))), ("hook", "h"), ("delete", "s"))),))
     return P
